@@ -360,7 +360,7 @@ func pairs(tier string) []Case {
 
 func Run(r *report.Run) {
 	ctx := context.Background()
-	r.Rule = "current database A created on a real in-memory SQLite engine by our own DDL writer (two spellings: table-level constraints / inline column constraints), desired schema B given as HCL from our own writer or as the HCL atlas itself exports for B (inspect + MarshalHCL: the inspect-edit-apply workflow); flow of `schema apply`: InspectRealm -> RealmDiff(DiffNormalized) -> ApplyChanges in a transaction -> re-inspect -> re-diff. a further dimension puts a view that reads t into the database (an object this build does not manage). quick: all ordered pairs of states with <=1 feature (x2 spellings) plus every 2-feature state against each of its 1-feature sub-states in both directions and against the bare skeleton; thorough: all ordered pairs of states with <=2 features. Features: " + fmt.Sprint(len(squ.Features)) + " elementary features over a 3-table skeleton. CLI slice: the real `atlas schema apply --auto-approve` on a database file (desired state as HCL file and as a live database), then `atlas schema diff` must print 'Schemas are synced', a second apply must be a no-op and the catalogue must equal B's (quick: every 1-feature state against the skeleton and its catalogue neighbour, both directions; thorough: all ordered pairs of <=1-feature states); non-trivial = pair with a non-empty plan; distinct = (A, B, spelling)"
+	r.Rule = "current database A created on a real in-memory SQLite engine by our own DDL writer (two spellings: table-level constraints / inline column constraints), desired schema B given as HCL from our own writer or as the HCL atlas itself exports for B (inspect + MarshalHCL: the inspect-edit-apply workflow); flow of `schema apply`: InspectRealm -> RealmDiff(DiffNormalized) -> ApplyChanges in a transaction -> re-inspect -> re-diff. a further dimension puts a view that reads t into the database (an object this build does not manage). quick: all ordered pairs of states with <=1 feature (x2 spellings) plus every 2-feature state against each of its 1-feature sub-states in both directions and against the bare skeleton; thorough: all ordered pairs of states with <=2 features. Features: " + fmt.Sprint(len(squ.Features)) + " elementary features over a 3-table skeleton. CLI slice: the real `atlas schema apply --auto-approve` on a database file (desired state as HCL file and as a live database), then `atlas schema diff` must print 'Schemas are synced', a second apply must be a no-op and the catalogue must equal B's (quick: every 1-feature state against the skeleton and its catalogue neighbour, both directions; thorough: all ordered pairs of <=1-feature states); twins: two database files created from the same statements (6 statement lists, among them index names that collide with the names atlas gives constraint indexes) must be in sync for `schema diff` and `schema apply`; non-trivial = pair with a non-empty plan; distinct = (A, B, spelling)"
 	r.Assumptions = []string{
 		"engine-invalid combinations (rejected by SQLite when created by our own DDL) are skipped and counted",
 		"independent oracle: the engine catalogue (pragma table_xinfo/index_list/index_xinfo/foreign_key_list + CHECK/generated texts) after A->B equals that of B created directly by our DDL; auto-index names and the origin of unique indexes (constraint vs CREATE INDEX) are normalised because atlas manages both as unique indexes",
@@ -410,6 +410,20 @@ func Replay(r *report.Run, raw json.RawMessage) {
 	var v struct{ Case Case }
 	if err := json.Unmarshal(raw, &v); err != nil {
 		r.Violate("", "bad replay file: "+err.Error(), nil)
+		return
+	}
+	var tv struct {
+		Case struct {
+			T *TwinCase `json:"twin"`
+		}
+	}
+	if json.Unmarshal(raw, &tv) == nil && tv.Case.T != nil {
+		defer clih.Cleanup()
+		r.Case("a", true)
+		r.Case("b", true)
+		if p := evalTwin(*tv.Case.T); len(p) > 0 {
+			r.Violate(classifyTwin(*tv.Case.T), strings.Join(p, " | "), map[string]any{"twin": tv.Case.T})
+		}
 		return
 	}
 	var cv struct {
